@@ -69,6 +69,20 @@ class Atoms:
                     return ('lit', 'S', True)
                 if o is ast.LtE:
                     return ('lit', 'S', False)
+            # len(hopeful) + len(elected) <= nSeats  <=>  hopeful <= seats left  <=>  not G
+            if isinstance(l, ast.BinOp) and isinstance(l.op, ast.Add) and self.ctx.canon(r, self.func) == 'E.nSeats':
+                ps = [l.left, l.right]
+                if any(self._len_sel(x, 'hopeful') for x in ps) and any(self._len_sel(x, 'elected') for x in ps):
+                    if o is ast.LtE:
+                        return ('lit', 'G', False)
+                    if o is ast.Gt:
+                        return ('lit', 'G', True)
+            # len(hopeful) > nSeats  (>= seats left): G0, which implies G
+            if self._len_sel(l, 'hopeful') and self.ctx.canon(r, self.func) == 'E.nSeats':
+                if o is ast.Gt:
+                    return ('lit', 'G0', True)
+                if o is ast.LtE:
+                    return ('lit', 'G0', False)
             if self._len_sel(l, 'hopeful') and isinstance(r, ast.Constant) and r.value == 0:
                 if o is ast.Gt:
                     return ('lit', 'H', True)
@@ -202,6 +216,10 @@ def apply_literals(facts, lits):
                 else:
                     new[key] = ('ne', frozenset([K]))
     # implications
+    if new.get('G0') is True:          # hopeful > seats >= seats left
+        if new.get('G') is False:
+            return None
+        new['G'] = True
     if new.get('G') is True and new.get('S') is True:
         if new.get('H') is False:
             return None
